@@ -9,6 +9,9 @@
      SharedOutBug  the callee returns the SAME result object from every call (a preallocated buffer), so a later call
                    overwrites a result the caller still holds            -> ResultsStable
      InPlaceBug    the callee writes into the argument it was given      -> ArgsUntouched
+     LazyCtorBug   the object keeps a REFERENCE to a mutable constructor argument (a dims list, an array of
+                   parameters) and reads it only at its first call, after the caller has reused that object
+                                                                         -> BuiltFromCtorValue
 
    Actions: Call(a) on argument object a returns a result object; Overwrite(a, c) is the CALLER changing the content of
    its own array in place (a[:] = ...; a finite-difference step a[j] += h; reuse of a work array); Drop(r) forgets a
@@ -20,17 +23,24 @@ CONSTANTS Args,        \* argument array objects of the caller
           Contents,    \* content versions (symbolic values)
           InitContent, \* [Args -> Contents] at the start
           MaxCalls, MaxHeld, MaxLen,
-          MemoBug, SharedOutBug, InPlaceBug
+          MemoBug, SharedOutBug, InPlaceBug, LazyCtorBug
 VARIABLES content,   \* [Args -> Contents]: what each caller array holds now
           memo,      \* what the callee remembers: <<>> or [arg, c]
           held,      \* results the caller holds: sequence of [obj, from]  (obj: result object id; from: the content the
                      \*   result was computed from AS THE OBJECT NOW READS)
           want,      \* for each held result, the content it was REQUESTED for (the argument content at call time)
+          ctor,      \* content of the caller's constructor-argument object NOW
+          built,     \* the constructor-argument content the object under test actually works with ("unread" until it is read)
+          early,     \* the constructor argument was overwritten BEFORE the first call (kept in the state so that the
+                     \*   breadth-first search keeps a witness history of that kind: it is where lazy construction shows)
           nres, ncalls, hist
-vars == <<content, memo, held, want, nres, ncalls, hist>>
+vars == <<content, memo, held, want, ctor, built, early, nres, ncalls, hist>>
+CtorAtConstruction == CHOOSE c \in Contents : TRUE
+Unread == "unread"
 None == <<>>
 Init == /\ content = InitContent /\ memo = None /\ held = <<>> /\ want = <<>> /\ nres = 0 /\ ncalls = 0
-        /\ hist = <<>>
+        /\ hist = <<>> /\ ctor = CtorAtConstruction /\ early = FALSE
+        /\ built = IF LazyCtorBug THEN Unread ELSE CtorAtConstruction
 \* the content the callee actually computes from
 Used(a) == IF MemoBug /\ memo # None /\ memo.arg = a THEN memo.c ELSE content[a]
 Call(a) ==
@@ -44,22 +54,31 @@ Call(a) ==
         /\ memo' = [arg |-> a, c |-> u]
         /\ nres' = nres + 1
         /\ content' = IF InPlaceBug THEN [content EXCEPT ![a] = CHOOSE c \in Contents : c # content[a]] ELSE content
-  /\ ncalls' = ncalls + 1 /\ hist' = Append(hist, <<"call", a>>)
+  /\ built' = IF built = Unread THEN ctor ELSE built      \* a lazily built object reads the constructor argument NOW
+  /\ ncalls' = ncalls + 1 /\ hist' = Append(hist, <<"call", a>>) /\ UNCHANGED <<ctor, early>>
 Overwrite(a, c) ==
   /\ c # content[a] /\ ncalls < MaxCalls /\ Len(hist) < MaxLen
   /\ content' = [content EXCEPT ![a] = c] /\ hist' = Append(hist, <<"overwrite", a, c>>)
-  /\ UNCHANGED <<memo, held, want, nres, ncalls>>
+  /\ UNCHANGED <<memo, held, want, nres, ncalls, ctor, built, early>>
+\* the caller reuses the (mutable) object it passed to the constructor: dims.reverse(), params[:] = ...
+OverwriteCtor(c) ==
+  /\ c # ctor /\ ncalls < MaxCalls /\ Len(hist) < MaxLen
+  /\ ctor' = c /\ hist' = Append(hist, <<"overwrite_ctor", c>>) /\ early' = (early \/ ncalls = 0)
+  /\ UNCHANGED <<content, memo, held, want, built, nres, ncalls>>
 Drop ==
   /\ held # <<>> /\ Len(hist) < MaxLen /\ held' = Tail(held) /\ want' = Tail(want) /\ hist' = Append(hist, <<"drop">>)
-  /\ UNCHANGED <<content, memo, nres, ncalls>>
+  /\ UNCHANGED <<content, memo, nres, ncalls, ctor, built, early>>
 Next == (\E a \in Args : Call(a)) \/ (\E a \in Args, c \in Contents : Overwrite(a, c)) \/ Drop
+        \/ (\E c \in Contents : OverwriteCtor(c))
 Spec == Init /\ [][Next]_vars
 \* ---- the contract
 \* every result the caller holds reads what it was requested for: computed from the content at call time, and still so
 ResultFromCurrentContent == \A i \in 1..Len(held) : i = Len(held) => held[i].from = want[i]
 ResultsStable == \A i \in 1..Len(held) : held[i].from = want[i]
 ArgsUntouched == [][\A a \in Args : Call(a) => content' = content]_vars
+\* the object works with the constructor argument AS IT WAS when the object was constructed
+BuiltFromCtorValue == built # Unread => built = CtorAtConstruction
 \* what a correct implementation may still do: remember things (memo) as long as it never answers from them wrongly
-View == <<content, memo, held, want, nres, ncalls>>
+View == <<content, memo, held, want, ctor, built, early, nres, ncalls>>
 Emit == (ncalls = MaxCalls \/ Len(hist) = MaxLen) => PrintT(<<"VS_HIST", hist>>)
 =============================================================================
